@@ -1,31 +1,45 @@
 #!/bin/sh
-# tools/run_seeded.sh [seed-id ...]: applies each seeded change to /repo, runs the
-# checks of every claimed property (or those given in CHECKS), undoes the change,
-# and records which checks raised a VIOLATION in /verif/seeded/<id>/detection.json.
+# tools/run_seeded.sh [seed-id ...]
+# For each seeded change: makes a scratch worktree of /repo's HEAD (outside /repo and
+# /verif), applies the change there, runs the quick checks of the properties in
+# CHECKS (default: the property the seed targets, plus C20) against that tree with a
+# scratch output directory, records which checks raised a VIOLATION in
+# /verif/seeded/<id>/detection.json, and removes the worktree.
+# (Same as `git -C /repo apply; ./check; git -C /repo checkout -- .`, but leaves
+# /repo untouched so that seeds can be run while contracts are being edited.)
 . /verif/env.sh
 cd /verif
+[ -x bin/govc ] || ./setup.sh
 ids="$*"; [ -n "$ids" ] || ids=$(ls seeded)
-props=${CHECKS:-$(python3 -c "import json;print(' '.join(c['property_id'] for c in json.load(open('/verif/MANIFEST.json'))['checks']))")}
-if [ -n "$(git -C /repo status --porcelain)" ]; then echo "/repo is not clean"; exit 2; fi
+claimed=$(python3 -c "import json;print(' '.join(c['property_id'] for c in json.load(open('/verif/MANIFEST.json'))['checks']))")
 for id in $ids; do
-  git -C /repo apply "seeded/$id/patch.diff" || { echo "$id: patch does not apply"; continue; }
+  wt=$(mktemp -d /var/tmp/seedrun.XXXXXX); rmdir "$wt"
+  git -C /repo worktree add -q --detach "$wt" HEAD || { echo "$id: cannot create worktree"; continue; }
+  sv=$(mktemp -d /var/tmp/seedverif.XXXXXX)
+  ln -s /verif/ledger "$sv/ledger"; [ -f /verif/known_findings.jsonl ] && cp /verif/known_findings.jsonl "$sv/"
+  if ! git -C "$wt" apply "/verif/seeded/$id/patch.diff"; then echo "$id: patch does not apply"; git -C /repo worktree remove --force "$wt"; rm -rf "$sv"; continue; fi
+  target=$(python3 -c "import json;print(json.load(open('/verif/seeded/$id/meta.json'))['property'])")
+  props=${CHECKS:-"$target C20"}
   res=""
   for p in $props; do
-    out=$(./check $p quick 2>&1); rc=$?
+    case " $claimed " in *" $p "*) ;; *) res="$res $p:-1:0"; continue;; esac
+    out=$(./bin/govc check -repo "$wt" -verif "$sv" -property $p -tier quick -par ${PAR:-6} 2>&1); rc=$?
     v=$(echo "$out" | grep -c '^VIOLATION')
     res="$res $p:$rc:$v"
-    echo "$out" | grep '^VIOLATION' | sed "s/^/  [$id] /" | head -5
+    echo "$out" | grep '^VIOLATION' | sed "s/^/  [$id] /" | head -4
+    for f in $(echo "$out" | grep '^VIOLATION' | sed 's/.*replay=\([^ ]*\).*/\1/' | head -3); do
+      python3 -c "import json,sys;r=json.load(open('$f'));print('     ',r.get('obligation'),'|',(r.get('failing_input') or {}).get('inputs','no-input'))" 2>/dev/null
+    done
   done
-  git -C /repo checkout -- . 
+  git -C /repo worktree remove --force "$wt"; rm -rf "$wt" "$sv"
   echo "$id ->$res"
   python3 - "$id" "$res" <<'PY'
 import json,sys
 id,res=sys.argv[1],sys.argv[2].split()
 d={}
 for r in res:
-    p,rc,v=r.split(':'); d[p]={"exit":int(rc),"violations":int(v)}
-json.dump({"seed":id,"checks":d,"detected_by":[p for p,x in d.items() if x["exit"]==1 and x["violations"]>0]},open(f'/verif/seeded/{id}/detection.json','w'),indent=1)
+    p,rc,v=r.split(':'); d[p]={"exit":int(rc),"violations":int(v)} if rc!='-1' else {"not_claimed":True}
+json.dump({"seed":id,"checks":d,"detected_by":[p for p,x in d.items() if x.get("exit")==1 and x.get("violations",0)>0]},open(f'/verif/seeded/{id}/detection.json','w'),indent=1)
 PY
 done
-rm -rf /verif/replays
-git -C /repo status --porcelain | head -3
+git -C /repo worktree prune
